@@ -220,3 +220,278 @@ Proof.
   intros H fuel G HG. rewrite (def_shape_head_predicate p n F H).
   apply (head_predicate_some_stable F _ fuel G); [apply (def_shape_head_predicate p n F H)|exact HG].
 Qed.
+
+(* ------------------------------------------------------------------ part 2: implication-free formulas *)
+(* no `->`, `<-`, `<->` anywhere: the bodies tau* produces *)
+Fixpoint imp_free (f : formula) : bool :=
+  match f with
+  | FAtomic _ => true
+  | FNot g => imp_free g
+  | FBin c l r => match c with CAnd | COr => imp_free l && imp_free r | _ => false end
+  | FQ _ _ g => imp_free g
+  end.
+
+Lemma imp_free_no_head f : imp_free f = true -> head_atom f = None.
+Proof.
+  induction f as [a|g IH|c l IHl r IHr|q vs g IH]; cbn; auto.
+  - destruct c; try discriminate; reflexivity.
+  - destruct q; auto.
+Qed.
+
+Ltac ksolve :=
+  cbn in *;
+  repeat match goal with
+         | H : _ && _ = true |- _ => apply andb_true_iff in H; destruct H
+         | |- _ && _ = true => apply andb_true_iff; split
+         end; try discriminate; auto.
+
+Lemma imp_free_quantify f q vs : imp_free (quantify f q vs) = imp_free f.
+Proof. destruct vs; reflexivity. Qed.
+Lemma imp_free_fold (c : bconn) (Hc : c = CAnd \/ c = COr) xs : forall x,
+  imp_free x = true -> forallb imp_free xs = true ->
+  imp_free (fold_left (fun acc e => FBin c acc e) xs x) = true.
+Proof.
+  induction xs as [|y xs IH]; intros x Hx Hxs; cbn; [exact Hx|].
+  cbn in Hxs. apply andb_true_iff in Hxs. destruct Hxs as [Hy Hxs].
+  apply IH; auto. destruct Hc as [-> | ->]; cbn; rewrite Hx, Hy; reflexivity.
+Qed.
+Lemma imp_free_conjoin l : forallb imp_free l = true -> imp_free (conjoin l) = true.
+Proof.
+  destruct l as [|x xs]; cbn; [reflexivity|]. intros H. apply andb_true_iff in H. destruct H.
+  apply imp_free_fold; auto.
+Qed.
+Lemma imp_free_disjoin l : forallb imp_free l = true -> imp_free (disjoin l) = true.
+Proof.
+  destruct l as [|x xs]; cbn; [reflexivity|]. intros H. apply andb_true_iff in H. destruct H.
+  apply imp_free_fold; auto.
+Qed.
+Lemma imp_free_conjoin_invert F : imp_free F = true -> forallb imp_free (conjoin_invert F) = true.
+Proof.
+  induction F as [a|g IH|c l IHl r IHr|q vs g IH]; cbn [conjoin_invert]; intros H.
+  - reflexivity.
+  - cbn in *. rewrite H. reflexivity.
+  - destruct c; try (cbn in H; discriminate).
+    + cbn in H. apply andb_true_iff in H. destruct H. rewrite forallb_app, IHl, IHr; auto.
+    + cbn in *. rewrite H. reflexivity.
+  - cbn in *. rewrite H. reflexivity.
+Qed.
+Lemma forallb_filter {A} (p q : A -> bool) l : forallb p l = true -> forallb p (filter q l) = true.
+Proof.
+  induction l as [|x l IH]; cbn; auto. intros H. apply andb_true_iff in H. destruct H.
+  destruct (q x); cbn; auto. rewrite H. auto.
+Qed.
+
+(* substitution changes terms and bound names only *)
+Section RenameBlockInv.
+Variable P : formula -> Prop.
+Variable sub : formula -> var -> gterm -> option formula.
+Variables tvs avoid0 : list var.
+Hypothesis Hsub : forall f v t f1, sub f v t = Some f1 -> P f -> P f1.
+Lemma rb_inv : forall vs f ch f' o, rename_block sub tvs avoid0 vs f ch = Some (f', o) -> P f -> P f'.
+Proof.
+  induction vs as [|v vs IH]; intros f ch f' o EQ Hf.
+  - cbn in EQ. inversion EQ; subst. exact Hf.
+  - apply rb_cons_inv in EQ. destruct EQ as [[_ [f1 [o1 [E1 [E2 _]]]]]|[_ [o1 [E2 _]]]].
+    + eapply IH; eauto.
+    + eapply IH; eauto.
+Qed.
+End RenameBlockInv.
+
+Lemma subst_fuel_imp_free n : forall F x t G,
+  subst_fuel n F x t = Some G -> imp_free F = true -> imp_free G = true.
+Proof.
+  induction n as [|n IH]; intros F x t G; [cbn; intros [= <-]; auto|].
+  destruct F as [a|g|c l r|q vs g]; intros E HF.
+  - apply subst_atomic_inv in E. destruct E as [a' [_ ->]]. reflexivity.
+  - apply subst_not_inv in E. destruct E as [g' [E ->]]. cbn. eapply IH; eauto.
+  - apply subst_bin_inv in E. destruct E as [l' [r' [El [Er ->]]]].
+    destruct c; ksolve; eapply IH; eauto.
+  - apply subst_q_inv in E. destruct E as [[_ ->]|[_ [f' [vs' [f'' [Erb [Es ->]]]]]]]; [exact HF|].
+    rewrite imp_free_quantify. eapply IH; [exact Es|].
+    eapply (rb_inv (fun f => imp_free f = true)); [|exact Erb|exact HF]. intros f v t0 f1. apply IH.
+Qed.
+Lemma substitute_imp_free F x t G : substitute F x t = Some G -> imp_free F = true -> imp_free G = true.
+Proof. apply subst_fuel_imp_free. Qed.
+
+(* what the loops of the two `unstable` rewrites can return (Proofs/SimplClassicOk.v has the loop
+   invariants; here only the syntactic form of a hit is needed) *)
+Lemma rqd_cases F G : restrict_quantifier_domain_opt F = Some G ->
+  G = F \/ exists ivar ovar comp, replacement_helper ivar ovar comp F = Some (G, true).
+Proof.
+  destruct F as [a|g|c l r|q outer body]; cbn [restrict_quantifier_domain_opt]; try (intros [= <-]; auto).
+  destruct q.
+  - destruct body as [a|g|c lhs rhs|q' vs' g]; try (intros [= <-]; auto).
+    destruct c; try (intros [= <-]; auto).
+    destruct lhs as [a|g|c l r|q' inner inner_formula]; try (intros [= <-]; auto).
+    destruct q'; try (intros [= <-]; auto).
+    set (F := FQ QForall outer (FBin CImp (FQ QExists inner inner_formula) rhs)).
+    fold (cond_all inner rhs).
+    match goal with |- option_map fst ?x = _ -> _ => destruct x as [s'|] eqn:L end; [|discriminate].
+    cbn [option_map]. intros [= <-].
+    assert (P : fst s' = F \/ rqd_hit F outer inner (cond_all inner rhs) (conjoin_invert inner_formula) (fst s')).
+    { revert L.
+      apply (for_break_inv (fun s => fst s = F \/
+               rqd_hit F outer inner (cond_all inner rhs) (conjoin_invert inner_formula) (fst s)));
+        [|left; reflexivity].
+      intros s0 x s2 b0 Hx P0.
+      apply (rqd_comp_body_inv F outer inner (cond_all inner rhs) (conjoin_invert inner_formula)
+               (fun s => fst s = F \/
+                  rqd_hit F outer inner (cond_all inner rhs) (conjoin_invert inner_formula) (fst s))
+               (fun G HG => or_intror HG) false s0 x s2 b0 Hx P0). }
+    destruct P as [->|[ivar [ovar [comp [_ [_ [_ [_ [_ R]]]]]]]]]; [left; reflexivity|right; eauto].
+  - destruct body as [a|g|c lhs rhs|q' vs' g]; try (intros [= <-]; auto).
+    destruct c; try (intros [= <-]; auto).
+    set (F := FQ QExists outer (FBin CAnd lhs rhs)).
+    set (cts := conjoin_invert lhs ++ conjoin_invert rhs).
+    match goal with |- option_map fst ?x = _ -> _ => destruct x as [s'|] eqn:L end; [|discriminate].
+    cbn [option_map]. intros [= <-].
+    assert (P : fst s' = F \/ rqd_hit_ex F outer cts (fst s')).
+    { revert L. apply (for_break_inv (fun s => fst s = F \/ rqd_hit_ex F outer cts (fst s))); [|left; reflexivity].
+      intros s0 x s2 b0 Hx P0. apply (rqd_ct_body_inv F outer cts s0 x s2 b0 Hx P0). }
+    destruct P as [->|[inner [inner_formula [_ [ivar [ovar [comp [_ [_ [_ [_ [_ R]]]]]]]]]]]];
+      [left; reflexivity|right; eauto].
+Qed.
+
+Lemma ste_cases F G : simplify_transitive_equality_opt F = Some G ->
+  G = F \/ exists vs f, F = FQ QExists vs f /\ ste_good vs (conjoin_invert f) G.
+Proof.
+  destruct F as [a|g|c l r|q vs f]; cbn [simplify_transitive_equality_opt]; try (intros [= <-]; auto).
+  destruct q; try (intros [= <-]; auto).
+  destruct f as [a|g|c l r|q' vs' g]; try (intros [= <-]; auto).
+  destruct c; try (intros [= <-]; auto).
+  set (f := FBin CAnd l r). set (F := FQ QExists vs f).
+  destruct (for_break (ste_outer_body vs (conjoin_invert f)) (F, false) (enumerate (conjoin_invert f)))
+    as [s'|] eqn:L; [|discriminate].
+  cbn [option_map]. intros [= <-].
+  assert (P : fst s' = F \/ ste_good vs (conjoin_invert f) (fst s')).
+  { revert L. apply (for_break_inv (fun s => fst s = F \/ ste_good vs (conjoin_invert f) (fst s))); [|left; reflexivity].
+    intros s0 x s2 b0 Hx P0. apply (ste_outer_body_inv F vs (conjoin_invert f)); auto.
+    destruct x as [j ct]. cbn [snd]. eapply in_enumerate; eauto. }
+  destruct P as [->|P]; [left; reflexivity|right; exists vs, f; auto].
+Qed.
+
+(* a generic view of a restrict_quantifier_domain hit: the block changes, the body is substituted *)
+Lemma rqd_hit_form F G : restrict_quantifier_domain_opt F = Some G ->
+  G = F \/ exists q vars f vars' x t f', F = FQ q vars f /\ substitute f x t = Some f' /\ G = FQ q vars' f'.
+Proof.
+  intros H. apply rqd_cases in H. destruct H as [->|[ivar [ovar [comp R]]]]; [auto|right].
+  apply replacement_helper_true in R. destruct R as [_ [q [vars [f [fvar [f' [-> [_ [Sub ->]]]]]]]]].
+  do 7 eexists. split; [reflexivity|]. split; [exact Sub|reflexivity].
+Qed.
+
+Definition keeps_K (r : formula -> formula) : Prop := forall x, imp_free x = true -> imp_free (r x) = true.
+
+Lemma evaluate_comparisons_guards_atomic gs : forall t, forallb imp_free (evaluate_comparisons_guards t gs) = true.
+Proof. induction gs as [|g gs IH]; intros t; cbn; auto. Qed.
+Lemma kK_evaluate_comparisons : keeps_K evaluate_comparisons.
+Proof.
+  intros x H. destruct x as [[| | |t gs]|g|c l r|q vs g]; cbn [evaluate_comparisons]; auto.
+  apply imp_free_conjoin, evaluate_comparisons_guards_atomic.
+Qed.
+Lemma kK_apply_negation_definition_inverse : keeps_K apply_negation_definition_inverse.
+Proof. intros x H. destruct x as [a|g|c l r|q vs g]; auto. destruct c; ksolve. Qed.
+Lemma kK_apply_reverse_implication_definition : keeps_K apply_reverse_implication_definition.
+Proof. intros x H. destruct x as [a|g|c l r|q vs g]; auto. destruct c; ksolve. Qed.
+Lemma kK_apply_equivalence_definition_inverse : keeps_K apply_equivalence_definition_inverse.
+Proof.
+  intros x H. destruct x as [a|g|c l r|q vs g]; auto. destruct c; try (cbn in H; discriminate); auto.
+  cbn in H. apply andb_true_iff in H. destruct H as [Hl Hr].
+  destruct l as [a|g|c1 l1 r1|q1 vs1 g1]; try (cbn; rewrite Hr; ksolve; fail).
+  destruct c1; try (cbn in Hl; discriminate).
+  - destruct r as [a|g|c2 l2 r2|q2 vs2 g2]; cbn in *; rewrite ?Hl, ?Hr; auto.
+  - destruct r as [a|g|c2 l2 r2|q2 vs2 g2]; cbn in *; rewrite ?Hl, ?Hr; auto.
+Qed.
+Lemma kK_remove_identities : keeps_K remove_identities.
+Proof.
+  intros x H. destruct x as [a|g|c l r|q vs g]; auto.
+  destruct c; try (cbn in H; discriminate);
+    destruct l as [[| | |]| | |]; destruct r as [[| | |]| | |]; ksolve.
+Qed.
+Lemma kK_remove_annihilations : keeps_K remove_annihilations.
+Proof.
+  intros x H. destruct x as [a|g|c l r|q vs g]; auto.
+  destruct c; try (cbn in H; discriminate);
+    destruct l as [[| | |]| | |]; destruct r as [[| | |]| | |]; ksolve.
+Qed.
+Lemma kK_remove_idempotences : keeps_K remove_idempotences.
+Proof.
+  intros x H. destruct x as [a|g|c l r|q vs g]; auto.
+  destruct c; try (cbn in H; discriminate); cbn [remove_idempotences]; destruct (formula_eqb l r); ksolve.
+Qed.
+Lemma kK_remove_orphaned_variables : keeps_K remove_orphaned_variables.
+Proof. intros x H. destruct x as [a|g|c l r|q vs g]; auto. Qed.
+Lemma kK_remove_empty_quantifications : keeps_K remove_empty_quantifications.
+Proof. intros x H. destruct x as [a|g|c l r|q vs g]; auto. destruct vs; auto. Qed.
+Lemma kK_join_nested_quantifiers : keeps_K join_nested_quantifiers.
+Proof.
+  intros x H. destruct x as [a|g|c l r|q vs g]; auto. destruct g as [a|g'|c l r|q' vs' g']; auto.
+  cbn [join_nested_quantifiers]. destruct (quant_dec q q'); auto. rewrite imp_free_quantify. exact H.
+Qed.
+Lemma kK_remove_double_negation : keeps_K remove_double_negation.
+Proof. intros x H. destruct x as [a|g|c l r|q vs g]; auto. destruct g; auto. Qed.
+
+Lemma sdv_loop_inv (P : formula -> Prop) :
+  (forall f v t f1, substitute f v t = Some f1 -> P f -> P f1) ->
+  forall vs f f', sdv_loop vs f = Some f' -> P f -> P f'.
+Proof.
+  intros HP. induction vs as [|v vs IH]; intros f f'; cbn [sdv_loop]; [intros [= <-]; auto|].
+  destruct (find_definition v f) as [d|]; [|apply IH].
+  destruct (substitute f v d) as [f1|] eqn:E; [|discriminate]. intros H Hf. eapply IH; eauto.
+Qed.
+Lemma kK_substitute_defined_variables : keeps_K substitute_defined_variables.
+Proof.
+  intros x H. unfold substitute_defined_variables, total.
+  destruct x as [a|g|c l r|q vs g]; auto. destruct q; auto. cbn [substitute_defined_variables_opt].
+  destruct (sdv_loop (rev vs) g) as [g'|] eqn:E; [|exact H].
+  rewrite imp_free_quantify.
+  apply (sdv_loop_inv (fun f => imp_free f = true) substitute_imp_free _ _ _ E). exact H.
+Qed.
+Lemma kK_restrict_quantifier_domain : keeps_K restrict_quantifier_domain.
+Proof.
+  intros x H. unfold restrict_quantifier_domain, total.
+  destruct (restrict_quantifier_domain_opt x) as [G|] eqn:E; [|exact H].
+  apply rqd_hit_form in E. destruct E as [->|[q [vars [f [vars' [v [t [f' [-> [Sub ->]]]]]]]]]]; [exact H|].
+  cbn in *. eapply substitute_imp_free; eauto.
+Qed.
+Lemma kK_extend_quantifier_scope : keeps_K extend_quantifier_scope.
+Proof.
+  intros x H. destruct x as [a|g|c l r|q vs g]; auto.
+  destruct c; try (cbn in H; discriminate);
+    destruct l as [a|g|c1 l1 r1|q1 vs1 g1]; destruct r as [a'|g'|c2 l2 r2|q2 vs2 g2]; auto;
+    cbn [extend_quantifier_scope];
+    try match goal with |- context [collision ?a ?b] => destruct (collision a b) end; ksolve.
+Qed.
+Lemma kK_simplify_transitive_equality : keeps_K simplify_transitive_equality.
+Proof.
+  intros x H. unfold simplify_transitive_equality, total.
+  destruct (simplify_transitive_equality_opt x) as [G|] eqn:E; [|exact H].
+  apply ste_cases in E. destruct E as [->|[vs [f [-> [c1 [c2 [k [d [dt [inner [_ [_ [_ [_ [_ [_ [Sub ->]]]]]]]]]]]]]]]]]; [exact H|].
+  cbn in *. eapply substitute_imp_free; [exact Sub|].
+  apply imp_free_conjoin, forallb_filter, imp_free_conjoin_invert, H.
+Qed.
+
+Lemma FULL_keeps_K : Forall keeps_K FULL.
+Proof.
+  unfold FULL, INTUITIONISTIC, HT, CLASSIC. cbn [app].
+  repeat constructor;
+    [ apply kK_evaluate_comparisons | apply kK_apply_negation_definition_inverse
+    | apply kK_apply_reverse_implication_definition | apply kK_apply_equivalence_definition_inverse
+    | apply kK_remove_identities | apply kK_remove_annihilations | apply kK_remove_idempotences
+    | apply kK_remove_orphaned_variables | apply kK_remove_empty_quantifications
+    | apply kK_join_nested_quantifiers | apply kK_remove_double_negation
+    | apply kK_substitute_defined_variables | apply kK_restrict_quantifier_domain
+    | apply kK_extend_quantifier_scope | apply kK_simplify_transitive_equality ].
+Qed.
+
+Lemma apply_keeps_K s : keeps_K s -> keeps_K (apply s).
+Proof.
+  intros Hs. intros F. induction F as [a|g IH|c l IHl r IHr|q vs g IH]; intros H; cbn [apply]; apply Hs.
+  - reflexivity.
+  - cbn in *. auto.
+  - destruct c; ksolve.
+  - cbn in *. auto.
+Qed.
+Lemma compose_keeps_K rs : Forall keeps_K rs -> keeps_K (compose rs).
+Proof. intros H x. apply (compose_inv (fun x => imp_free x = true)). exact H. Qed.
+Theorem imp_free_pass F : imp_free F = true -> imp_free (apply (compose FULL) F) = true.
+Proof. apply apply_keeps_K, compose_keeps_K, FULL_keeps_K. Qed.
